@@ -3,6 +3,8 @@
 //! note: what the monitor reports as claimable for one HTLC output of a confirmed commitment (channelmonitor.rs get_htlc_balance, the decision after the pending on-chain events were scanned): every HTLC that is not yet resolved on chain is reported, with its own amount; our outbound HTLC as something we can take back at its expiry (or as awaiting confirmations once our timeout spend is in a block); an inbound HTLC whose preimage we know as ours to claim before its expiry (awaiting confirmations only once a spend that used the preimage is in a block); an inbound HTLC without preimage as the counterparty's unless it times out
 //! trusted: R15 (deep slice): get_htlc_balance from `if let Some(conf_thresh) = holder_delayed_output_pending` to the end, verbatim as a function of the values the scan above it produced; the scan of revoked-output claims (`htlc_output_claim_pending`, an iterator chain over pending events) is replaced by a parameter; R11: `panic!("Outbound HTLCs should have a source")` is unreachable!() (obligation: an HTLC we offered has a source); R16: `Some(&HTLCSource::X)` written `Some(HTLCSource::X)`
 //! assume: the relations LDK's debug_assert!s state between the results of the scan (a delayed output of ours only on our own commitment; an HTLC resolved with no spend pending only on our commitment or after the funding spend is final; no timeout event and no preimage spend of an offered HTLC on a revoked commitment; a timeout event only for an HTLC we can time out) hold: they are kept as obligations and discharged from these preconditions
+//! trusted: R15 (deep slice): get_claimable_balances: the body of the loop over the HTLCs of our current commitment while no funding spend is confirmed, verbatim as a function of one HTLC and the five running totals (the macro holder_commitment_htlcs! that yields the HTLCs is dropped); R11 for its panic!
+//! assume: the running totals plus one HTLC amount fit u64 (amounts are bounded by the channel value; the source adds unchecked)
 //! trusted: env: enum Balance, BalanceSource, HolderCommitmentTransactionBalance extracted; HTLCOutputInCommitment skeleton {offered, amount_msat, cltv_expiry, payment_hash}; HTLCSource skeleton with the three variants; payment_preimages is a stub map whose get() answers from a ghost map
 //! trusted: assume_specification for core::cmp::max / core::cmp::min (std definitions): present in every unit so that a change that introduces them is verified instead of being rejected by the tool
 use vstd::prelude::*;
@@ -21,7 +23,7 @@ pub assume_specification<T: core::cmp::Ord>[core::cmp::min::<T>](a: T, b: T) -> 
 //@end
 //@extract lightning/src/chain/channelmonitor.rs :: enum Balance
 //@end
-pub struct HTLCOutputInCommitment { pub offered: bool, pub amount_msat: u64, pub cltv_expiry: u32, pub payment_hash: PaymentHash }
+pub struct HTLCOutputInCommitment { pub offered: bool, pub amount_msat: u64, pub cltv_expiry: u32, pub payment_hash: PaymentHash, pub transaction_output_index: Option<u32> }
 pub struct PrevHop { pub id: u64 }
 pub enum HTLCSource { PreviousHopData(PrevHop), TrampolineForward { id: u64 }, OutboundRoute { id: u64 } }
 pub struct PaidBy { pub id: u64 }
@@ -29,6 +31,7 @@ pub struct PreimageMap { pub m: Ghost<Map<PaymentHash, (PaymentPreimage, Vec<Pai
 impl PreimageMap {
     #[verifier::external_body] pub fn get(&self, k: &PaymentHash) -> (r: Option<&(PaymentPreimage, Vec<PaidBy>)>)
         ensures r is Some <==> self.m@.contains_key(*k), r is Some ==> *r->Some_0 == self.m@[*k] { unimplemented!() }
+    #[verifier::external_body] pub fn contains_key(&self, k: &PaymentHash) -> (r: bool) ensures r == self.m@.contains_key(*k) { unimplemented!() }
 }
 pub struct Txid { pub id: u64 }
 pub struct Monitor { pub payment_preimages: PreimageMap, pub funding_spend_confirmed: Option<Txid> }
@@ -95,5 +98,48 @@ impl Monitor {
     if let Some((conf_thresh, _)) = htlc_spend_pending {
 //@end
 }
+// ---- get_claimable_balances while the channel is open: every HTLC of our current commitment is accounted for exactly once ----
+pub open spec fn rounded(htlc: &HTLCOutputInCommitment) -> u64 { if htlc.transaction_output_index is None { htlc.amount_msat } else { (htlc.amount_msat % 1000) as u64 } }
+pub struct Tally { pub claimable_inbound_htlc_value_sat: u64, pub outbound_payment_htlc_rounded_msat: u64, pub outbound_forwarded_htlc_rounded_msat: u64, pub inbound_claiming_htlc_rounded_msat: u64, pub inbound_htlc_rounded_msat: u64 }
+//@extract lightning/src/chain/channelmonitor.rs :: impl ChannelMonitor :: fn get_claimable_balances
+//@slice R15
+    for (htlc, source) in holder_commitment_htlcs!(us, CURRENT_WITH_SOURCES) { $body:any } let balance_candidates
+//@with
+    fn account_for_htlc_of_open_channel(us: &Monitor, htlc: &HTLCOutputInCommitment, source: Option<&HTLCSource>, res: &mut Vec<Balance>, t: Tally) -> Tally {
+        let mut claimable_inbound_htlc_value_sat = t.claimable_inbound_htlc_value_sat; let mut outbound_payment_htlc_rounded_msat = t.outbound_payment_htlc_rounded_msat;
+        let mut outbound_forwarded_htlc_rounded_msat = t.outbound_forwarded_htlc_rounded_msat; let mut inbound_claiming_htlc_rounded_msat = t.inbound_claiming_htlc_rounded_msat;
+        let mut inbound_htlc_rounded_msat = t.inbound_htlc_rounded_msat;
+        $body
+        Tally { claimable_inbound_htlc_value_sat, outbound_payment_htlc_rounded_msat, outbound_forwarded_htlc_rounded_msat, inbound_claiming_htlc_rounded_msat, inbound_htlc_rounded_msat }
+    }
+//@ret r
+//@requires
+    htlc.offered ==> source is Some,
+    t.claimable_inbound_htlc_value_sat as int + htlc.amount_msat <= u64::MAX, t.outbound_payment_htlc_rounded_msat as int + htlc.amount_msat <= u64::MAX, t.outbound_forwarded_htlc_rounded_msat as int + htlc.amount_msat <= u64::MAX,
+    t.inbound_claiming_htlc_rounded_msat as int + htlc.amount_msat <= u64::MAX, t.inbound_htlc_rounded_msat as int + htlc.amount_msat <= u64::MAX,
+//@ensures P C07 while-the-channel-is-open-every-htlc-of-our-commitment-is-counted-once-what-its-output-does-not-carry-as-rounding-what-it-carries-as-a-balance-or-as-ours-to-claim
+    // the part of the HTLC that no output carries (all of it for a dust HTLC) goes to exactly one of the four rounding totals, chosen by direction, origin and knowledge of the preimage
+    ({ let known = us.payment_preimages.m@.contains_key(htlc.payment_hash);
+       let ours = source matches Some(HTLCSource::OutboundRoute { .. });
+       &&& r.outbound_payment_htlc_rounded_msat == t.outbound_payment_htlc_rounded_msat + (if htlc.offered && ours { rounded(htlc) } else { 0 })
+       &&& r.outbound_forwarded_htlc_rounded_msat == t.outbound_forwarded_htlc_rounded_msat + (if htlc.offered && !ours { rounded(htlc) } else { 0 })
+       &&& r.inbound_claiming_htlc_rounded_msat == t.inbound_claiming_htlc_rounded_msat + (if !htlc.offered && known { rounded(htlc) } else { 0 })
+       &&& r.inbound_htlc_rounded_msat == t.inbound_htlc_rounded_msat + (if !htlc.offered && !known { rounded(htlc) } else { 0 })
+       // an inbound HTLC we can claim adds its whole satoshis to what we would get by closing now
+       &&& r.claimable_inbound_htlc_value_sat == t.claimable_inbound_htlc_value_sat + (if !htlc.offered && known && htlc.transaction_output_index is Some { sat(htlc) } else { 0 })
+       // an HTLC with an output that is not ours to claim yet is listed as its own balance
+       &&& final(res)@ == old(res)@ + (if htlc.transaction_output_index is None || (!htlc.offered && known) { Seq::<Balance>::empty() }
+            else if htlc.offered { seq![Balance::MaybeTimeoutClaimableHTLC { amount_satoshis: sat(htlc), claimable_height: htlc.cltv_expiry, payment_hash: htlc.payment_hash, outbound_payment: ours }] }
+            else { seq![Balance::MaybePreimageClaimableHTLC { amount_satoshis: sat(htlc), expiry_height: htlc.cltv_expiry, payment_hash: htlc.payment_hash }] })
+    }),
+//@mutant dust_htlc_counted_by_its_remainder
+    let rounded_value_msat = if htlc.transaction_output_index.is_none() {
+//@with
+    let rounded_value_msat = if htlc.transaction_output_index.is_some() {
+//@mutant claimable_dust_htlc_counted_as_ours_on_close
+    inbound_claiming_htlc_rounded_msat += rounded_value_msat; if htlc.transaction_output_index.is_some() {
+//@with
+    inbound_claiming_htlc_rounded_msat += rounded_value_msat; if htlc.transaction_output_index.is_none() {
+//@end
 }
 fn main() {}
